@@ -32,7 +32,7 @@ ASSUMPTIONS = ["bitwise digests (SHA-1 of array bytes); wall-clock fields (itera
                "documented in-place kernels (UtriangleQsparse 'overwrites input b', Hess_QR_ggivens) are called on copies by their callers and are not in the battery"]
 SHARDS = {"quick": 12, "thorough": 16}
 TIMEOUT = {"quick": 900, "thorough": 3600}
-DECIDING = ["history:call_equals_fresh", "history:config_unchanged", "history:args_unchanged", "immut:args_unchanged", "immut:layout_accepted", "repeat:same_arguments_same_result",
+DECIDING = ["history:call_equals_fresh", "history:config_unchanged", "history:args_unchanged", "immut:args_unchanged", "immut:layout_accepted", "repeat:same_arguments_same_result", "repeat:after_inplace_update_equals_fresh",
             "seed:same_seed_same_result", "seed:different_seed_different_result", "repeat:deterministic",
             "styles:identical", "styles:all_calls_ran"]
 MUST_REACH = ["size_variant:1", "size_variant:2", "history:mixed_sizes", "history:fresh_table_from_fresh_processes", "styles:compared", "layout:readonly", "layout:strided"]
@@ -225,6 +225,9 @@ def _immut(spec, ctx, R):
         if rec["error"] is None:
             ctx.check("repeat:same_arguments_same_result", rec.get("repeat_digest") == rec["digest"], site=name, tags=[lay, st],
                       detail={"layout": lay, "size": size})
+            if "inplace_same_object" in rec and lay == "C":      # same (contiguous) memory order on both sides: bitwise comparable
+                ctx.check("repeat:after_inplace_update_equals_fresh", rec["inplace_same_object"] == rec["inplace_fresh_copy"], site=name,
+                          tags=[lay, st], detail={"layout": lay, "size": size})
     if lay == "C" and size is None:
         ctx.sample({"battery_entries": sorted(got)[:12] + ["..."], "n_entries": len(got), "layouts": gen.LAYOUTS, "size_variants": [None, 1, 2, 3, 5]})
 
